@@ -101,6 +101,7 @@ func runC15(c core.Case) core.Result {
 	run0 := countRunGoroutines()
 	calls := 0
 	var cmu sync.Mutex
+	var writers []*c15Writer
 	for round := 0; round < 2 && res.Verdict == ""; round++ {
 		var dbs []*originium.DB
 		var dirs []string
@@ -121,15 +122,21 @@ func runC15(c core.Case) core.Result {
 		}
 		G := int(c.Int("writers", 3))
 		N := int(c.Int("txns", 40))
-		writers := make([]*c15Writer, G*ndb)
+		if writers == nil {
+			writers = make([]*c15Writer, G*ndb)
+		}
 		var wg sync.WaitGroup
 		for di, db := range dbs {
 			for g := 0; g < G; g++ {
-				w := &c15Writer{last: map[string]string{}}
-				for k := 0; k < 4; k++ {
-					w.keys = append(w.keys, fmt.Sprintf("w%d.%d/k%d", di, g, k))
+				w := writers[di*G+g]
+				if w == nil {
+					// the model of a writer's keys lives across the rounds, like the directory does
+					w = &c15Writer{last: map[string]string{}}
+					for k := 0; k < 4; k++ {
+						w.keys = append(w.keys, fmt.Sprintf("w%d.%d/k%d", di, g, k))
+					}
+					writers[di*G+g] = w
 				}
-				writers[di*G+g] = w
 				wg.Add(1)
 				go func(db *originium.DB, w *c15Writer, g int) {
 					defer wg.Done()
@@ -228,7 +235,7 @@ func genC15(tier string, seed int64) []core.Case {
 	for i := 0; i < n; i++ {
 		f := fams[i%len(fams)]
 		c := core.Case{ID: fmt.Sprintf("lv%05d", i), Kind: "scenario", Seed: r.Int63(), S: map[string]string{"family": f},
-			N: map[string]int64{"imm": int64(r.Intn(4)), "mem": int64([]int{1, 50, 120, 300}[r.Intn(4)]), "writers": int64(2 + r.Intn(4)), "readers": int64(r.Intn(4)), "txns": int64(20 + r.Intn(31))}}
+			N: map[string]int64{"imm": int64(r.Intn(4)), "mem": int64([]int{1, 50, 120, 300}[r.Intn(4)]), "writers": int64(2 + r.Intn(4)), "readers": int64(r.Intn(4)), "txns": int64(8 + r.Intn(18))}}
 		if f == "begin-storm" {
 			c.N["readers"] = int64(4 + r.Intn(5))
 		}
@@ -252,7 +259,7 @@ func init() {
 	core.Register(&core.Check{
 		Prop: "C15", Level: "exploration",
 		Rule: "case = one scenario, two rounds on the same directories: fast-writers (2-5 writers commit faster than a flusher slowed at its schedule points, flush queue 0-3, memtable 1-300 B), begin-storm (4-8 readers Begin while commits are slowed between timestamp and write), close-pending (Close with flushes queued), close-idle (Close right after Open), two-dbs (two databases in one process); every call must return: an in-process watchdog far above normal latency takes two goroutine dumps 3 s apart and declares a deadlock only if no hook fired in between and every goroutine inside the engine is parked in the same frame with a blocking wait reason; after Close no flush goroutine may remain and an immediate Open must read every writer's last committed value (writers own disjoint keys); non-trivial = a sender actually waited for the flush queue, or >=3 Begins arrived during a commit, or the idle-close family; distinct by case parameters",
-		Gen: genC15, Run: runC15, BatchSize: 5, GoMaxProcs: 4, Parallel: 6, CaseTimeout: 30 * time.Second,
+		Gen: genC15, Run: runC15, BatchSize: 5, GoMaxProcs: 4, Parallel: 6, CaseTimeout: 45 * time.Second,
 		OnStuck: func(c core.Case, an core.StuckAnalysis, res *core.Result) {
 			if an.Stable {
 				res.Verdict = ""
@@ -261,7 +268,7 @@ func init() {
 			}
 		},
 		MinNonTrivial: map[string]int{"quick": 15, "thorough": 500},
-		Assumptions: []string{"'bounded time' is decided as 'not in a stable blocked state' 30 s after the case started (normal duration < 2 s); a wedged state that still fires hooks ends inconclusive",
+		Assumptions: []string{"'bounded time' is decided as 'not in a stable blocked state' 45 s after the case started (normal duration < 2 s); a wedged state that still fires hooks ends inconclusive",
 			"Close is called after all client calls returned (Close concurrent with commits is outside the property)"},
 	})
 }
